@@ -1010,13 +1010,14 @@ Proof.
     intros E; injection E as E _; subst s1. exact (v_send_data_state s off data s' Hs).
   - intros E; injection E as E _; subst s'. apply v_data_chunks_sent_state.
   - destruct (a' =? v_addr s); intros E; injection E as E _; subst s'; [|reflexivity].
-    unfold v_query. destruct (v_state s); reflexivity.
+    destruct (v_state s) eqn:Hst; cbn [set_state v_state after_report]; try exact Hst; reflexivity.
   - destruct (a' =? v_addr s); intros E; injection E as E _; subst s'; [|reflexivity].
-    unfold v_query. destruct (v_state s); reflexivity.
+    destruct (v_state s) eqn:Hst; cbn [set_state v_state after_report]; try exact Hst; reflexivity.
   - intros E; injection E as E _; subst s'; reflexivity.
   - intros E; injection E as E _; subst s'; reflexivity.
   - destruct (a' =? v_addr s); [|intros E; injection E as E _; subst s'; reflexivity].
-    destruct (v_state s); try (intros E; injection E as E _; subst s'; reflexivity).
+    destruct (v_state s) eqn:Hst;
+      try (intros E; injection E as E _; subst s'; cbn [after_complete]; exact Hst).
     destruct (forallb log_page_ok (v_pages s)); [|discriminate].
     intros E; injection E as E _; subst s'. destruct (v_style s); reflexivity.
   - destruct (a' =? v_addr s); intros E; injection E as E _; subst s'; reflexivity.
@@ -1105,7 +1106,20 @@ Lemma chunk_nonzero s o d :
            v_type := v_type s |}, None).
 Proof.
   intros Hst Ho. unfold vstep, v_send_data. rewrite Hst.
-  destruct (N.eqb_spec o 0); [contradiction|]. reflexivity.
+  destruct (N.eqb_spec o 0); [contradiction|]. cbv beta iota zeta. rewrite ?Hst. reflexivity.
+Qed.
+
+Lemma chunk_zero s d :
+  v_state s = PixelsInProgress ->
+  vstep s (SendData 0 d) =
+  Some ({| v_addr := v_addr s; v_style := v_style s; v_state := v_state s;
+           v_pages := v_pages (flush_pixels s); v_pending := d;
+           v_chunks := winc (v_chunks s); v_w := v_w s; v_h := v_h s;
+           v_type := v_type s |}, None).
+Proof.
+  intros Hst. unfold vstep, v_send_data. rewrite Hst. vm_eval (0 =? 0). cbv beta iota zeta.
+  destruct (flush_pixels_fields s) as (F1 & F2 & F3 & F4 & F5 & F6 & F7 & F8).
+  rewrite F1, F2, F3, F4, F5, F6, F7, F8, ?Hst. reflexivity.
 Qed.
 
 Theorem chunks_in_order : forall l s,
@@ -1142,12 +1156,30 @@ Theorem chunk_at_zero s d :
     /\ (~ (0 < v_w s /\ 0 < v_h s /\ nlen (v_pending s) = total_bytes (v_w s) (v_h s)) ->
         v_pages s' = v_pages s).
 Proof.
-  intros Hst. unfold vstep, v_send_data. rewrite Hst. vm_eval (0 =? 0). cbv iota.
-  eexists. split; [reflexivity|]. inv_fields.
+  intros Hst. rewrite (chunk_zero s d Hst).
+  eexists. split; [reflexivity|]. inv_fields. unfold winc.
   destruct (flush_pixels_spec s) as (_ & Hy & Hn).
-  destruct (flush_pixels_fields s) as (F1 & F2 & F3 & F4 & F5 & F6 & F7 & F8).
-  rewrite F1, F2, F3, F4, F5, F6, F7, F8. cbn [app]. unfold winc.
   repeat (split; [reflexivity|]). split; [exact Hy|exact Hn].
+Qed.
+
+(* The chunk count ends the transfer and flushes the last buffer the same way. *)
+Theorem count_flushes s n :
+  v_state s = PixelsInProgress ->
+  exists s', vstep s (DataChunksSent n) = Some (s', None)
+    /\ v_pending s' = [] /\ v_chunks s' = 0
+    /\ v_w s' = v_w s /\ v_h s' = v_h s /\ v_type s' = v_type s
+    /\ v_addr s' = v_addr s /\ v_style s' = v_style s
+    /\ ((0 < v_w s /\ 0 < v_h s /\ nlen (v_pending s) = total_bytes (v_w s) (v_h s)) ->
+        v_pages s' = v_pages s ++ [{| p_w := v_w s; p_h := v_h s; p_bytes := v_pending s |}])
+    /\ (~ (0 < v_w s /\ 0 < v_h s /\ nlen (v_pending s) = total_bytes (v_w s) (v_h s)) ->
+        v_pages s' = v_pages s).
+Proof.
+  intros Hst. exists (v_data_chunks_sent s n). split; [reflexivity|].
+  rewrite (v_data_chunks_sent_receiving s n (or_intror Hst)). inv_fields.
+  repeat (split; [reflexivity|]).
+  destruct (flush_pixels_spec (set_state s (count_result (v_state s) (v_chunks s =? n))))
+    as (_ & Hy & Hn).
+  split; [exact Hy|exact Hn].
 Qed.
 
 (* ------------------------------------------------------------------------- *)
@@ -1313,3 +1345,46 @@ Proof.
     exists s2, (r_i :: rs_i). split; [|exact Hi2].
     rewrite vrun_cons, Hv, Hv2. reflexivity.
 Qed.
+
+(* ------------------------------------------------------------------------- *)
+(** * The same results with the quantifier order used in props/ *)
+
+Lemma no_panic_bus_bh : forall b h, Forall VInv0 b -> bus_run b h <> None.
+Proof. intros b h. exact (no_panic_bus h b). Qed.
+
+Lemma vrun_refines_sh : forall s h s' rs,
+  vrun s h = Some (s', rs) ->
+  spec_trace (v_style s) (v_addr s) (v_state s) h rs (v_state s').
+Proof. intros s h. exact (vrun_refines h s). Qed.
+
+Lemma bus_absent_bm : forall b m a,
+  msg_target m = Some a -> ~ In a (map v_addr b) -> bus_step b m = Some (b, None).
+Proof. intros b m a Ht. exact (bus_absent m a Ht b). Qed.
+
+Lemma bus_reply_address_bm : forall b m b' rm,
+  bus_step b m = Some (b', Some rm) ->
+  exists a, msg_target m = Some a /\ msg_addr rm = a /\ In a (map v_addr b).
+Proof. intros b m. exact (bus_reply_address m b). Qed.
+
+Lemma bus_unaddressed_bm : forall b m,
+  msg_target m = None -> (forall s, In s b -> vstep s m <> None) ->
+  exists b', bus_step b m = Some (b', None) /\ length b' = length b
+    /\ forall i s, nth_error b i = Some s ->
+         exists s', vstep s m = Some (s', None) /\ nth_error b' i = Some s'
+           /\ (v_state s <> ConfigInProgress -> v_state s <> PixelsInProgress -> s' = s).
+Proof. intros b m Ht. exact (bus_unaddressed m Ht b). Qed.
+
+Lemma bus_projection_bh : forall b h b' rs,
+  NoDup (map v_addr b) -> bus_run b h = Some (b', rs) ->
+  map v_addr b' = map v_addr b
+  /\ forall i s, nth_error b i = Some s ->
+       exists s' rs_i, vrun s h = Some (s', rs_i) /\ nth_error b' i = Some s'.
+Proof. intros b h. exact (bus_projection h b). Qed.
+
+Lemma VInv_run_sh : forall s h s' rs,
+  VInv s -> Forall wf_msg h -> vrun s h = Some (s', rs) -> VInv s'.
+Proof. intros s h. exact (VInv_run h s). Qed.
+
+Lemma VInv_bus_run_bh : forall b h b' rs,
+  Forall VInv b -> Forall wf_msg h -> bus_run b h = Some (b', rs) -> Forall VInv b'.
+Proof. intros b h. exact (VInv_bus_run h b). Qed.
